@@ -16,7 +16,7 @@ def builtin_probe(ctx):
         if len(p) >= 2:
             vals[p[0]] = p[1:]
     if 'hang' in vals:
-        ctx.violation({'probe': 'builtin', 'hang': True}, 'a real delivery with every built-in action registered and completely full self-pipes did not return within 15 s (%s)' % ' '.join(vals['hang']),
+        ctx.violation({'probe': 'builtin', 'hang': True}, 'a real delivery with every built-in action registered and completely full self-pipes did not return within 15 s - 8 observed deliveries, then 1500 that nobody drains (%s)' % ' '.join(vals['hang']),
                       {'probe_output': out, 'replay': 'harness/target/debug/p_c03 8'})
         return
     if rc != 0 or 'ops' not in vals:
@@ -37,6 +37,8 @@ def builtin_probe(ctx):
         ctx.violation({'probe': 'builtin', 'steps': True}, 'a delivery with 8 built-in actions took %.1f shim operations on average' % per, {'probe_output': out})
     if int(vals['elapsed_us'][0]) > 2_000_000:
         ctx.violation({'probe': 'builtin', 'slow': True}, 'deliveries with full self-pipes took %s us (blocking?)' % vals['elapsed_us'][0], {'probe_output': out})
+    if 'burst_elapsed_us' not in vals or int(vals['burst_elapsed_us'][0]) > 3_000_000:
+        ctx.violation({'probe': 'builtin', 'burst': True}, '1500 undrained deliveries (iterator self-pipes full) took %s us' % vals.get('burst_elapsed_us', ['?'])[0], {'probe_output': out})
     ctx.coverage['builtin_actions_probe'] = {k: ' '.join(v) for k, v in vals.items()}
 
 
@@ -61,6 +63,13 @@ def run(ctx):
         ctx.prove_dep('props/C08.v', 'a delivery runs Channel::send (WithRawSiginfo / WithOrigin exfiltration)')
     LC.lockstep(ctx, [LC.mon_c08])
     LC.nested_sweep(ctx, ('panic', 'hang'))
+    # ... with C13: the self-pipe wake-up runs inside the handler; "never waits" rests on C13's non-blocking write /
+    # send in every history of registrations on shared descriptions, full queues, removals
+    import c13
+    if ctx.harness(['p_c13']):
+        if ctx.translate(c13.COMPONENTS):
+            ctx.prove_dep('props/C13.v', 'the self-pipe wake-up is a built-in action of a delivery')
+        c13.run_histories(ctx, c13.fixed_histories(), False)
     # ... and with C15: the flag / conditional-shutdown actions run inside the handler too; ending the process
     # there must go through _exit (no exit hooks, no locks, no waiting)
     import c15
@@ -76,6 +85,9 @@ def run(ctx):
 def replay(ctx, path):
     case = json.load(open(path))
     sc = case.get('case', {}).get('scenario')
+    if case.get('case', {}).get('history'):
+        import c13
+        return c13.replay(ctx, path)
     if case.get('case', {}).get('c15_script'):
         import c15
         ctx.harness(['p_c15'])
